@@ -79,6 +79,29 @@ def verify_contract(c, prefix='', timeout_s=10, both=False, source_override=None
             if r.verdict != 'unsat':
                 canary_ok = True
                 rep.canary = '%s: %s' % (cn.oid, r.verdict)
+    if c.refines and rep.out_of_subset is None:
+        # behavioural subtyping: callers that only know the base-class contract may rely on it for this override
+        import z3
+        from .sorts import fresh, I
+        base = REG.by_key[c.refines]
+        H0 = sx.Heap.symbolic('pre', REG.global_types)
+        args = {n: sx.fresh_value(ty, n) for n, ty in c.params}
+        eng = sx.Engine.__new__(sx.Engine)
+        eng.obls, eng.discovery, eng.prune, eng.pending_exits, eng.exits = [], True, False, [], []
+        eng.global_types, eng.reg, eng.qualname = REG.global_types, REG, 'refine'
+        st = sx.State(H0.copy())
+        st.pc += [H0.alloc >= 0] + sx.heap_ref_axioms(H0)
+        for v in args.values():
+            st.pc += eng.wf_param(H0, v)
+        st.pc += [f for _, f in c.requires(H0, args)]
+        # the post-state of an arbitrary call of the override, as a caller knowing ITS contract sees it (havoc + frame + ensures)
+        res = eng.apply_contract(st, c, [args[n] for n, _ in c.params], {}, 0, 'refine')
+        for lab, f in base.requires(H0, args):
+            ob = sx.Obligation('%s%s::%s/refines.requires[%s]' % (prefix, c.path, c.qualname, lab), [g for _, g in c.requires(H0, args)] + [H0.alloc >= 0], f, 'property')
+            rep.results.append(smt.discharge(ob, timeout_s=timeout_s, both=both))
+        for lab, f, tg in base.ensures(H0, st.heap, args, res):
+            ob = sx.Obligation('%s%s::%s/refines.ensures[%s]' % (prefix, c.path, c.qualname, lab), st.pc, f, tg)
+            rep.results.append(smt.discharge(ob, timeout_s=timeout_s, both=both))
     if rep.out_of_subset is None and not getattr(c, 'never_returns', False):
         if n_canaries == 0 or not canary_ok:
             rep.vacuity.append('%s: no normal exit is reachable (canary `False` was provable at every exit)' % c.key)
